@@ -14,4 +14,5 @@ mkdir -p coq/gen evidence replays harness/bin
 cp /repo/go.sum harness/go.sum
 (cd harness && for d in cmd/*/; do n=$(basename $d); go build -tags verif -o bin/$n ./cmd/$n || echo "WARNING: harness $n does not build" >&2; done)
 (cd tools/go2coq && go build -o ../../harness/bin/go2coq . )
+(cd tools/goconsts && go build -o ../../harness/bin/goconsts . )
 echo "setup ok"
